@@ -147,8 +147,11 @@ const char *pd_fl_of(struct uref *fd)
 {
     static char buf[80];
     uint64_t h = 0;
+    uint8_t ch = 0;
     if (fd != NULL && ubase_check(uref_pic_flow_get_hsize(fd, &h)))
         snprintf(buf, sizeof(buf), "%s/h%" PRIu64, fd_name(fd), h);
+    else if (fd != NULL && ubase_check(uref_sound_flow_get_channels(fd, &ch)))
+        snprintf(buf, sizeof(buf), "%s/c%u", fd_name(fd), ch);
     else
         snprintf(buf, sizeof(buf), "%s", fd_name(fd));
     return buf;
